@@ -410,3 +410,115 @@ func TestC41_TrieHuge(t *testing.T) {
 		},
 		Check: c41TrieCheck})
 }
+
+// --- sorter reuse: histories of sorts on one Sorter ---
+
+type c41Step struct {
+	G    c41Graph
+	Mode string // "full", "twice" (iterate the returned sequence two times), "partial" (stop after K nodes)
+	K    int
+}
+
+type c41Hist struct{ Steps []c41Step }
+
+func c41CheckOrder(g c41Graph, out []int) error {
+	seen := map[int]int{}
+	for i, v := range out {
+		if _, dup := seen[v]; dup {
+			return fmt.Errorf("node %d yielded twice; output %v graph %+v", v, out, g)
+		}
+		seen[v] = i
+	}
+	reach := map[int]bool{}
+	var walk func(v int)
+	walk = func(v int) {
+		if reach[v] {
+			return
+		}
+		reach[v] = true
+		for _, c := range g.Adj[v] {
+			walk(c)
+		}
+	}
+	for _, v := range g.Roots {
+		walk(v)
+	}
+	if len(seen) != len(reach) {
+		return fmt.Errorf("yielded %d nodes, reachable %d; output %v graph %+v", len(seen), len(reach), out, g)
+	}
+	for v, i := range seen {
+		if !reach[v] {
+			return fmt.Errorf("node %d not reachable; output %v graph %+v", v, out, g)
+		}
+		for _, c := range g.Adj[v] {
+			if seen[c] > i {
+				return fmt.Errorf("child %d after parent %d; output %v graph %+v", c, v, out, g)
+			}
+		}
+	}
+	return nil
+}
+
+func c41Reuse(h c41Hist, r *ev.Rec) error {
+	s := verifexport.Sorter[int, int]{Key: func(v int) int { return v }}
+	for i, st := range h.Steps {
+		g := st.G
+		seq := s.Sort(g.Roots, func(v int) iter.Seq[int] { return slices.Values(g.Adj[v]) })
+		runs := 1
+		if st.Mode == "twice" {
+			runs = 2
+		}
+		for run := 0; run < runs; run++ {
+			var out []int
+			for v := range seq {
+				out = append(out, v)
+				if st.Mode == "partial" && len(out) >= st.K {
+					break
+				}
+			}
+			if st.Mode == "partial" {
+				continue
+			}
+			if err := c41CheckOrder(g, out); err != nil {
+				return fmt.Errorf("step %d (%s, iteration %d): %v; history %+v", i, st.Mode, run+1, err, h)
+			}
+		}
+	}
+	modes := map[string]bool{}
+	for _, st := range h.Steps {
+		modes[st.Mode] = true
+	}
+	r.Case(ev.JSONFP(h), len(h.Steps) >= 2 && len(modes) >= 2, fmt.Sprintf("steps=%d", len(h.Steps)))
+	if len(modes) >= 2 {
+		r.Sample(h)
+	}
+	return nil
+}
+
+func TestC41_TopoSorterReuse(t *testing.T) {
+	ev.Run(t, ev.Spec[c41Hist]{ID: "C41", Name: "TopoSorterReuse", Quick: 2000, Thorough: 100000,
+		Rule: "histories of 1-5 sorts of random DAGs on ONE reusable Sorter; each returned sequence is iterated fully, twice, or abandoned after K nodes; oracle: every full iteration yields exactly the reachable set, each once, children first; non-trivial = >=2 steps using >=2 different modes; distinct by history",
+		Gen: func(t *rapid.T) c41Hist {
+			var h c41Hist
+			n := rapid.IntRange(1, 5).Draw(t, "steps")
+			for i := 0; i < n; i++ {
+				nn := rapid.IntRange(1, 6).Draw(t, "n")
+				adj := make([][]int, nn)
+				ne := rapid.IntRange(0, 2*nn).Draw(t, "ne")
+				for k := 0; k < ne; k++ {
+					a, b := rapid.IntRange(0, nn-1).Draw(t, "a"), rapid.IntRange(0, nn-1).Draw(t, "b")
+					if a == b {
+						continue
+					}
+					if a < b {
+						a, b = b, a
+					}
+					adj[a] = append(adj[a], b)
+				}
+				h.Steps = append(h.Steps, c41Step{G: c41Graph{N: nn, Adj: adj, Roots: rapid.SliceOfN(rapid.IntRange(0, nn-1), 1, 3).Draw(t, "roots")},
+					Mode: rapid.SampledFrom([]string{"full", "full", "twice", "partial"}).Draw(t, "mode"), K: rapid.IntRange(0, 3).Draw(t, "k")})
+			}
+			return h
+		},
+		Check: c41Reuse})
+}
